@@ -180,7 +180,7 @@ var fanMu sync.Mutex
 // fanStepTimeout: a goroutine released by the scheduler parks again within microseconds; the first time one does
 // not, we wait long enough to rule out machine load, afterwards (a hang has already been reported by this process)
 // a short wait suffices.
-var fanStepTimeout = 4 * time.Second
+var fanStepTimeout = 20 * time.Second
 
 func fanSawHang() { fanStepTimeout = 150 * time.Millisecond }
 
@@ -239,12 +239,24 @@ func runFanout(a fanArgs) fanReal {
 		closed = true
 		cmu.Unlock()
 	}()
+	// The spawn order of the real code is Go's map order; the model's `mSpawn v` may pick any service.  The services
+	// are interchangeable up to what fn returns for them, so the scheduler BINDS the real service spawned k-th to the
+	// model service the plan spawns k-th (bind: real index → model index) and fn answers for the model index.
+	bind := make([]int, n)   // real j → model v (-1 = not yet spawned)
+	unbind := make([]int, n) // model v → real j
+	for i := range bind {
+		bind[i], unbind[i] = -1, -1
+	}
 	fn := func(name string, svc types.ServiceConfig) (types.ServiceConfig, error) {
 		sch.yield("W.fn", name)
-		v, _ := strconv.Atoi(strings.TrimPrefix(name, "s"))
+		j, _ := strconv.Atoi(strings.TrimPrefix(name, "s"))
 		cmu.Lock()
+		v := -1
+		if j >= 0 && j < n {
+			v = bind[j]
+		}
 		if !closed {
-			out.Calls[name]++
+			out.Calls["s"+strconv.Itoa(v)]++
 			if svc.Name != name || svc.Image != "orig-"+name || svc.Labels["k"] != name {
 				out.BadInput = append(out.BadInput, name)
 			}
@@ -262,12 +274,23 @@ func runFanout(a fanArgs) fanReal {
 		retCh <- fanRet{p, err}
 	}()
 
-	// ---- shadow of what the scheduler needs to know about blocking
-	wpc := make([]string, n) // begin, fn, return, exit, gone
-	cpc := "select"          // select, recv, ctxDone, exit, inSelect, gone
-	mpc := "wait"            // wait, inWait, returned
+	// ---- shadow of what the scheduler needs to know about blocking (indexed by REAL service index)
+	wpc := make([]string, n) // idle, begin, fn, return, exit, gone
+	for j := range wpc {
+		wpc[j] = "idle"
+	}
+	cpc := "none" // none, select, recv, ctxDone, exit, inSelect, gone
+	mpc := "read" // read, spawnC, spawn, wait, inWait, returned
 	chCount, cancelled := 0, false
 	var got *fanRet
+	modelOf := func(name string) string { // "s<j>" → model index as text
+		j, err := strconv.Atoi(strings.TrimPrefix(name, "s"))
+		if err != nil || j < 0 || j >= n || bind[j] < 0 {
+			return "?" + name
+		}
+		return strconv.Itoa(bind[j])
+	}
+	realW := func(v int) string { return "W" + strconv.Itoa(unbind[v]) } // scheduler key of model worker v
 
 	pcs := func() string {
 		parts := []string{"M=" + mpc}
@@ -277,12 +300,16 @@ func runFanout(a fanArgs) fanReal {
 		}
 		if c == "recv" {
 			if p := sch.get("C"); p != nil {
-				c = "recv:" + strings.TrimPrefix(p.key, "s")
+				c = "recv:" + modelOf(p.key)
 			}
 		}
 		parts = append(parts, "C="+c)
 		for v := 0; v < n; v++ {
-			parts = append(parts, fmt.Sprintf("W%d=%s", v, wpc[v]))
+			st := "idle"
+			if unbind[v] >= 0 {
+				st = wpc[unbind[v]]
+			}
+			parts = append(parts, fmt.Sprintf("W%d=%s", v, st))
 		}
 		return strings.Join(parts, " ")
 	}
@@ -290,9 +317,20 @@ func runFanout(a fanArgs) fanReal {
 		out.Trace = append(out.Trace, l)
 		out.Pcs = append(out.Pcs, pcs())
 	}
+	mParkState := func(p *parkedG) string {
+		switch p.step {
+		case "M.spawn":
+			return "spawn"
+		case "M.wait":
+			return "wait"
+		}
+		return "?" + p.step
+	}
 
-	// ---- initial quiescence: the caller has spawned everything and is parked at M.wait
-	if p := sch.waitPark("M", fanStepTimeout); p == nil || p.step != "M.wait" {
+	// ---- initial quiescence: the caller has read the field, started the collector and is parked before its first
+	// spawn (or at M.wait when there is no service); these two steps are the only ones not observed one by one
+	mp := sch.waitPark("M", fanStepTimeout)
+	if mp == nil {
 		select {
 		case r := <-retCh:
 			got = &r
@@ -300,52 +338,23 @@ func runFanout(a fanArgs) fanReal {
 		default:
 			out.Status = "hang:start"
 		}
-		return finishFan(out, a, got)
-	}
-	if n == 0 {
-		cpc = "exit"
+		return finishFan(out, a, got, bind)
 	}
 	cp := sch.waitPark("C", fanStepTimeout)
 	if cp == nil {
 		out.Status = "hang:collector-start"
-		return finishFan(out, a, got)
-	}
-	cpc = strings.TrimPrefix(cp.step, "C.")
-	for v := 0; v < n; v++ {
-		p := sch.waitPark("W"+strconv.Itoa(v), fanStepTimeout)
-		if p == nil || p.step != "W.begin" {
-			out.Status = "hang:worker-start"
-			return finishFan(out, a, got)
-		}
-		wpc[v] = "begin"
-	}
-	// synthesised prefix: the caller's steps before M.wait are not observable one by one
-	mpc = "read"
-	savedC, savedW := cpc, append([]string{}, wpc...)
-	cpc = "none"
-	for v := range wpc {
-		wpc[v] = "idle"
+		return finishFan(out, a, got, bind)
 	}
 	mpc = "spawnC"
 	logEv("mRead")
-	mpc = "spawning"
-	if n == 0 {
-		mpc = "wait"
-	}
-	cpc = savedC
+	mpc = mParkState(mp)
+	cpc = strings.TrimPrefix(cp.step, "C.")
 	logEv("mSpawnC")
-	for v := 0; v < n; v++ {
-		wpc[v] = savedW[v]
-		if v == n-1 {
-			mpc = "wait"
-		}
-		logEv("mSpawn:" + strconv.Itoa(v))
-	}
 
 	rng := rand.New(rand.NewSource(a.Seed))
 	planPos := 0
 	for _, l := range a.Plan { // skip the uncontrollable prefix of the plan
-		if l == "mRead" || l == "mSpawnC" || strings.HasPrefix(l, "mSpawn:") {
+		if l == "mRead" || l == "mSpawnC" {
 			planPos++
 		} else {
 			break
@@ -383,12 +392,12 @@ func runFanout(a fanArgs) fanReal {
 		}
 		// a sender that blocked (off-model: the buffer always has room) may have been unblocked by a receive
 		inSend := 0
-		for v := 0; v < n; v++ {
-			if wpc[v] == "inSend" {
-				if q := sch.get("W" + strconv.Itoa(v)); q != nil && q.step == "W.exit" {
-					wpc[v] = "exit"
+		for j := 0; j < n; j++ {
+			if wpc[j] == "inSend" {
+				if q := sch.get("W" + strconv.Itoa(j)); q != nil && q.step == "W.exit" {
+					wpc[j] = "exit"
 					chCount++
-					logEv("wSend:" + strconv.Itoa(v))
+					logEv("wSend:" + strconv.Itoa(bind[j]))
 				} else {
 					inSend++
 				}
@@ -436,7 +445,7 @@ func runFanout(a fanArgs) fanReal {
 		}
 		// candidates
 		var cand []string
-		if mpc == "wait" {
+		if mpc == "wait" || mpc == "spawn" {
 			cand = append(cand, "M")
 		}
 		if cpc != "gone" && cpc != "inSelect" {
@@ -444,8 +453,8 @@ func runFanout(a fanArgs) fanReal {
 				cand = append(cand, "C")
 			}
 		}
-		for v := 0; v < n; v++ {
-			if wpc[v] != "gone" && wpc[v] != "inSend" {
+		for v := 0; v < n; v++ { // by MODEL index, so that plan labels name them
+			if j := unbind[v]; j >= 0 && wpc[j] != "gone" && wpc[j] != "inSend" {
 				cand = append(cand, "W"+strconv.Itoa(v))
 			}
 		}
@@ -458,6 +467,7 @@ func runFanout(a fanArgs) fanReal {
 			break
 		}
 		var who string
+		wantV := -1 // model service the plan wants spawned next
 		if a.Mode == "rand" {
 			who = cand[rng.Intn(len(cand))]
 		} else {
@@ -470,6 +480,18 @@ func runFanout(a fanArgs) fanReal {
 				w := labelActor(l)
 				if (l == "cRecv" || l == "cCtxDone") && cpc != "select" {
 					continue // the select already fired (or is in progress)
+				}
+				if strings.HasPrefix(l, "mSpawn:") {
+					if mpc != "spawn" {
+						out.Diverged = true
+						continue
+					}
+					if x, err := strconv.Atoi(l[7:]); err == nil && x >= 0 && x < n && unbind[x] < 0 {
+						wantV = x
+					}
+				} else if l == "mWait" && mpc != "wait" {
+					out.Diverged = true
+					continue
 				}
 				for _, c := range cand {
 					if c == w {
@@ -487,9 +509,41 @@ func runFanout(a fanArgs) fanReal {
 		// ---- release `who` and observe its next park / exit
 		switch who[0] {
 		case 'M':
+			if mpc == "wait" {
+				sch.releaseG("M")
+				mpc = "inWait"
+				logEv("mWait")
+				break
+			}
+			// the caller spawns the worker of the service it is parked for, then parks again
+			p := sch.get("M")
+			j, err := strconv.Atoi(strings.TrimPrefix(p.key, "s"))
+			if err != nil || j < 0 || j >= n || bind[j] >= 0 {
+				out.Status = "hang:spawn-unknown-service"
+				break
+			}
+			v := wantV
+			if v < 0 {
+				for x := 0; x < n; x++ {
+					if unbind[x] < 0 {
+						v = x
+						break
+					}
+				}
+			}
+			cmu.Lock()
+			bind[j], unbind[v] = v, j
+			cmu.Unlock()
 			sch.releaseG("M")
-			mpc = "inWait"
-			logEv("mWait")
+			q := sch.waitPark("M", fanStepTimeout)
+			w := sch.waitPark("W"+strconv.Itoa(j), fanStepTimeout)
+			if q == nil || w == nil || w.step != "W.begin" {
+				out.Status = "hang:spawn"
+				break
+			}
+			mpc = mParkState(q)
+			wpc[j] = "begin"
+			logEv("mSpawn:" + strconv.Itoa(v))
 		case 'C':
 			p := sch.releaseG("C")
 			switch cpc {
@@ -529,25 +583,27 @@ func runFanout(a fanArgs) fanReal {
 				}
 			}
 		case 'W':
-			v, _ := strconv.Atoi(who[1:])
-			p := sch.releaseG(who)
+			mv, _ := strconv.Atoi(who[1:]) // model index
+			v := unbind[mv]                // real index
+			rw := realW(mv)
+			p := sch.releaseG(rw)
 			switch wpc[v] {
 			case "begin":
-				if q := sch.waitPark(who, fanStepTimeout); q == nil || q.step != "W.fn" {
+				if q := sch.waitPark(rw, fanStepTimeout); q == nil || q.step != "W.fn" {
 					out.Status = "hang:begin"
 				} else {
 					wpc[v] = "fn"
 					logEv("wBegin:" + who[1:])
 				}
 			case "fn":
-				if q := sch.waitPark(who, fanStepTimeout); q == nil || q.step != "W.return" {
+				if q := sch.waitPark(rw, fanStepTimeout); q == nil || q.step != "W.return" {
 					out.Status = "hang:fn"
 				} else {
 					wpc[v] = "return"
 					logEv("wReturn:" + who[1:])
 				}
 			case "return":
-				if a.Res[v] < 0 {
+				if a.Res[mv] < 0 {
 					if !waitGone(p.gid, fanStepTimeout) {
 						out.Status = "hang:fail"
 					} else {
@@ -556,7 +612,7 @@ func runFanout(a fanArgs) fanReal {
 						logEv("wFail:" + who[1:])
 					}
 				} else {
-					if q := sch.waitPark(who, fanStepTimeout); q == nil || q.step != "W.exit" {
+					if q := sch.waitPark(rw, fanStepTimeout); q == nil || q.step != "W.exit" {
 						// the send blocks although the buffer has room for every result: off-model; keep scheduling the
 						// others – it is a property failure only if the call can no longer finish
 						wpc[v] = "inSend"
@@ -584,11 +640,11 @@ func runFanout(a fanArgs) fanReal {
 	if out.Status == "ok" && got == nil {
 		out.Status = "hang:steps"
 	}
-	return finishFan(out, a, got)
+	return finishFan(out, a, got, bind)
 }
 
 // finishFan records what the call returned.
-func finishFan(out fanReal, a fanArgs, got *fanRet) fanReal {
+func finishFan(out fanReal, a fanArgs, got *fanRet, bind []int) fanReal {
 	if strings.HasPrefix(out.Status, "hang") {
 		fanSawHang()
 	}
@@ -615,15 +671,20 @@ func finishFan(out fanReal, a fanArgs, got *fanRet) fanReal {
 	out.Services = map[string]int{}
 	orig := len(got.p.Services) == len(a.Res)
 	for name, svc := range got.p.Services {
+		// report by MODEL index
+		key := "?" + name
+		if j, err := strconv.Atoi(strings.TrimPrefix(name, "s")); err == nil && j >= 0 && j < len(bind) && bind[j] >= 0 {
+			key = strconv.Itoa(bind[j])
+		}
 		if strings.HasPrefix(svc.Image, "r") {
 			r, err := strconv.Atoi(svc.Image[1:])
 			if err != nil {
 				r = -2
 			}
-			out.Services[strings.TrimPrefix(name, "s")] = r
+			out.Services[key] = r
 			orig = false
 		} else {
-			out.Services[strings.TrimPrefix(name, "s")] = -1
+			out.Services[key] = -1
 			if svc.Image != "orig-"+name {
 				orig = false
 			}
@@ -776,7 +837,7 @@ func init() {
 			return map[string]any{"res": a.Res, "trace": r.Trace}
 		},
 		Judge:   judgeFanout,
-		Timeout: 30 * time.Second,
+		Timeout: 120 * time.Second,
 	})
 }
 
